@@ -75,15 +75,25 @@ class H(object):
                     inputs = in2
                 else:
                     verdict = 'unknown'
-        alts = []
-        if verdict == 'sat':
+        rec = {'label': label, 'verdict': verdict, 'inputs': inputs,
+               'known': known, 'why': why, 'candidate': True}
+        if verdict == 'sat' and getattr(self.ob, 'real', None):
             # a domain candidate is not a claim about every input of the
-            # path: offer replay a few diverse models
-            ctx._base_scopes = ctx.solver.num_scopes()
-            alts = _more_models(ctx, inputs, 12)
-        self.claims.append({'label': label, 'verdict': verdict,
-                            'inputs': inputs, 'known': known, 'why': why,
-                            'candidate': True, 'alts': alts})
+            # path: replay now, and offer a few more diverse models of the
+            # path condition if the first one does not show a violation
+            try:
+                r = self.ob.real(inputs)
+                if not (r.get('violations') or {}):
+                    ctx._base_scopes = ctx.solver.num_scopes()
+                    for alt in _more_models(ctx, inputs, 8):
+                        r = self.ob.real(alt)
+                        if r.get('violations'):
+                            rec['inputs'] = alt
+                            break
+                rec['replayed'] = r
+            except Exception:
+                rec['replay_error'] = traceback.format_exc(limit=4)
+        self.claims.append(rec)
 
     def observe(self, key, value):
         self.obs[key] = value
@@ -362,19 +372,20 @@ def run_obligation(ob, seed=0):
 def _replay_claim(ob, c, rec):
     """a sat answer is never reported directly: replay on the real library"""
     inputs = c['inputs']
-    tries = [inputs] + list(c.get('alts') or [])
-    r = None
-    viol = {}
-    for inputs in tries:
+    if c.get('replay_error'):
+        rec['errors'].append('replay failed for %s: %s' % (
+            c['label'], c['replay_error']))
+        return
+    if 'replayed' in c:
+        r = c['replayed']
+    else:
         try:
             r = ob.real(inputs)
         except Exception:
             rec['errors'].append('replay failed for %s: %s' % (
                 c['label'], traceback.format_exc(limit=4)))
             return
-        viol = r.get('violations') or {}
-        if viol or not c.get('candidate'):
-            break
+    viol = r.get('violations') or {}
     if c.get('candidate') and not viol:
         rec['unconfirmed_candidates'] = rec.get('unconfirmed_candidates',
                                                 0) + 1
